@@ -41,11 +41,19 @@ def device_spec(name, variant, vec_enabled=True, grp_enabled=True, depth=1, ngro
     return dict(name=name, groups=groups, depth=depth)
 
 
-def deployment(variant, vec_enabled=True, grp_enabled=True, depth=1, ndev=1, ngroups=2):
-    """device 0 is the device under test; further devices have the SAME vector and element names."""
+def deployment(variant, vec_enabled=True, grp_enabled=True, depth=1, ndev=1, ngroups=2, related=False):
+    """device 0 is the device under test; further devices have the SAME vector and element names.
+    related=True: device 1's class DERIVES from device 0's class (instantiated after it) and adds a group."""
     specs = [device_spec("DEV0", variant, vec_enabled, grp_enabled, depth, ngroups)]
     for i in range(1, ndev):
-        specs.append(device_spec("DEV%d" % i, variant, True, True, 1, 2))
+        if related and i == 1:
+            import copy
+
+            groups = [dict(copy.deepcopy(g), inherited=True) for g in specs[0]["groups"]]
+            groups.append(dict(attr="g9", name="Derived", enabled=True, vectors=[dict(attr="d", kind="text", name="DERIVED", elements=[dict(attr="a", name="A", default="da")])]))
+            specs.append(dict(name="DEV1", groups=groups, depth=1, derive_from=0))
+        else:
+            specs.append(device_spec("DEV%d" % i, variant, True, True, 1, 2))
     return specs
 
 
@@ -58,6 +66,10 @@ def family(tier):
                 for ndev in (1, 2, 3):
                     p = dict(variant=variant, vec_enabled=ve, grp_enabled=ge, depth=depth, ndev=ndev, ngroups=3 if depth == 3 else 2)
                     out.append(p)
+    # class hierarchies shared between devices: device 1 derives from device 0's class
+    for variant in ("text", "number-printf", "switch-OneOfMany", "blob"):
+        for depth in (1, 2):
+            out.append(dict(variant=variant, vec_enabled=True, grp_enabled=True, depth=depth, ndev=2, ngroups=2, related=True))
     if tier == "thorough":
         return out
     # quick: pairwise-ish subset of 128: every variant x (ve, ge) x 4 of the 9 (depth, ndev) combinations, rotating
@@ -70,4 +82,5 @@ def family(tier):
                 depth, ndev = combos[(i + k * 2) % 9]
                 q.append(dict(variant=variant, vec_enabled=ve, grp_enabled=ge, depth=depth, ndev=ndev, ngroups=3 if depth == 3 else 2))
             i += 1
+    q += [p for p in out if p.get("related")]
     return q
